@@ -1069,6 +1069,13 @@ func (em *emitter) emitForRange(node *ast.ForRange) {
 	inForRange := em.inForRange
 	em.inForRange = true
 
+	// A break statement in the body refers to this statement, also if this
+	// statement is in the body of a for, switch or select statement.
+	breakable := em.breakable
+	breakLabel := em.breakLabel
+	em.breakable = false
+	em.breakLabel = nil
+
 	em.fb.enterScope()
 
 	vars := node.Assignment.Lhs
@@ -1147,6 +1154,8 @@ func (em *emitter) emitForRange(node *ast.ForRange) {
 	em.fb.exitScope()
 	em.fb.exitScope()
 	em.inForRange = inForRange
+	em.breakable = breakable
+	em.breakLabel = breakLabel
 
 	if node.Else != nil {
 		endForLabel := em.fb.newLabel()
